@@ -26,6 +26,19 @@ RedirectWhy(P, attr, i, sort, map, rpid, rattr) ==
     ELSE IF sort = 0 /\ map # [k \in 1 .. n |-> k - 1]                        THEN "positions-moved"
     ELSE ""
 
+\* reversing a root-to-tip path (PathReverser: a path is re-rooted at its tip): the same nodes in the opposite order, a chain again, every attribute
+\* kept, the types of the two ends exchanged.  map: identity of the result's k-th node; the path is taken from the table (root need not be node 0)
+RECURSIVE UpPath(_, _)
+UpPath(P, i) == IF Par(P, i) = -1 THEN <<i>> ELSE <<i>> \o UpPath(P, Par(P, i))              \* tip first, root last
+ReverseWhy(P, attr, i, map, rpid, rattr) ==
+    LET want == UpPath(P, i)  n == Len(want) IN
+    IF map # want                                                              THEN "path-nodes-or-order"
+    ELSE IF Len(rpid) # n \/ Len(rattr) # n                                    THEN "lengths"
+    ELSE IF rpid # [k \in 1 .. n |-> k - 2]                                     THEN "not-a-chain"
+    ELSE IF \E k \in 1 .. n : rattr[k][1] # RedirType(attr, RootOf(P), i, map[k]) THEN "types"
+    ELSE IF \E k \in 1 .. n : Tail(rattr[k]) # Tail(attr[map[k] + 1])           THEN "attributes"
+    ELSE ""
+
 \* the code's path reversal, for the algorithm layer
 RedirectAlg(P, i) == [k \in 1 .. Len(P) |->
                         IF k - 1 = i THEN -1
